@@ -870,7 +870,7 @@ func (vc *vCtx) autoCallee(fn *types.Func) *vFunc {
 	if err != nil {
 		return nil
 	}
-	vAuxPending = append(vAuxPending, "/-- auxiliary (not listed in tables.d; called by a kernel) -/\n"+text+"\n")
+	vAuxPending = append(vAuxPending, "-- auxiliary: not listed in tables.d, called by a kernel\n"+text+"\n")
 	return vCallees[key]
 }
 
